@@ -1337,9 +1337,12 @@ func (tc *typechecker) checkTypeDeclaration(node *ast.TypeDeclaration) (string, 
 	//
 	//    type T struct { .. }
 	//
-	// the package in which the type T is declared.
+	// the package in which the struct type is denoted. A type defined from a
+	// native struct type does not make its unexported fields accessible.
 	if defType.Kind() == reflect.Struct {
-		tc.structDeclPkg[defType] = tc.path
+		if pkg, ok := tc.structDeclPkg[typ.Type]; ok {
+			tc.structDeclPkg[defType] = pkg
+		}
 	}
 	return name, &typeInfo{
 		Type:       defType,
